@@ -65,6 +65,8 @@ pub struct Prog {
     pub edb: Vec<Vec<Vec<V>>>,   // stored tuples per relation
     pub dom: Vec<V>,             // the value domain
     pub shape: Vec<&'static str>,
+    /// relations whose stored-fact entry exists but is empty (a tuple is inserted and deleted again)
+    pub emptied: Vec<bool>,
 }
 
 impl V {
@@ -126,11 +128,27 @@ impl Prog {
     pub fn nrel(&self) -> usize {
         self.arity.len()
     }
+    fn dummy(&self, r: usize) -> Vec<V> {
+        (0..self.arity[r]).map(|_| V::I(0)).collect()
+    }
+    /// the engine ignores the stored facts of a rule head unless every clause of it is self-recursive
+    pub fn shadowed(&self, r: usize) -> bool {
+        self.clauses.iter().any(|c| c.head.rel == r && !c.body.iter().any(|l| matches!(l, L::Pos(a) if a.rel == r)))
+    }
+    pub fn has_clauses(&self, r: usize) -> bool {
+        self.clauses.iter().any(|c| c.head.rel == r)
+    }
     pub fn text(&self) -> String {
         let mut s = String::new();
         for (r, ts) in self.edb.iter().enumerate() {
             if !ts.is_empty() {
                 s.push_str(&fact_stmt(r, ts));
+                s.push('\n');
+            } else if self.emptied.get(r).copied().unwrap_or(false) {
+                let d = self.dummy(r);
+                s.push_str(&fact_stmt(r, &[d.clone()]));
+                s.push('\n');
+                s.push_str(&fact_stmt(r, &[d]).replacen('+', "-", 1));
                 s.push('\n');
             }
         }
@@ -231,8 +249,14 @@ pub fn parse_prog(nbase: usize, arity: &[usize], dom: &[V], src: &str, shape: &'
         edb: vec![vec![]; arity.len()],
         dom: dom.to_vec(),
         shape: vec![shape],
+        emptied: vec![false; arity.len()],
     };
     for line in src.lines().map(|l| l.trim()).filter(|l| !l.is_empty()) {
+        if let Some(rest) = line.strip_suffix(" emptied") {
+            let r: usize = rest.trim()[1..].parse().expect("emptied relation");
+            p.emptied[r] = true;
+            continue;
+        }
         if let Some(ar) = line.find("<-") {
             let head = parse_atom(&line[..ar]);
             let body = split_items(&line[ar + 2..]).iter().map(|x| parse_lit(x)).collect();
@@ -354,7 +378,12 @@ pub fn clause_heads(m: &[BTreeSet<Vec<V>>], c: &Cl) -> Vec<Vec<V>> {
 }
 /// perfect model, relations evaluated in index order (programs are layered by construction)
 pub fn perfect(p: &Prog) -> Vec<BTreeSet<Vec<V>>> {
-    let mut m: Vec<BTreeSet<Vec<V>>> = p.edb.iter().map(|ts| ts.iter().cloned().collect()).collect();
+    let mut m: Vec<BTreeSet<Vec<V>>> = p
+        .edb
+        .iter()
+        .enumerate()
+        .map(|(r, ts)| if p.shadowed(r) { BTreeSet::new() } else { ts.iter().cloned().collect() })
+        .collect();
     for r in 0..p.nrel() {
         loop {
             let mut added = false;
@@ -516,7 +545,32 @@ pub fn gen_prog(r: &mut Rng) -> Prog {
             clauses.push(Cl { head: A { rel: h, args: hargs }, body });
         }
     }
-    Prog { arity, nbase, clauses, edb, dom, shape }
+    let mut emptied = vec![false; arity.len()];
+    // rule-defined relations that ALSO have a stored-fact entry: emptied again (1/4) or with facts (1/8)
+    for h in nbase..arity.len() {
+        if !clauses.iter().any(|c| c.head.rel == h) {
+            continue;
+        }
+        match r.below(8) {
+            0 | 1 => {
+                emptied[h] = true;
+                shape.push("derived_with_emptied_store");
+            }
+            2 => {
+                let n = r.range(1, 3);
+                let mut seen = BTreeSet::new();
+                for _ in 0..n {
+                    let t: Vec<V> = (0..arity[h]).map(|_| gen_val(r, &dom)).collect();
+                    if seen.insert(t.clone()) {
+                        edb[h].push(t);
+                    }
+                }
+                shape.push("derived_with_stored_facts");
+            }
+            _ => {}
+        }
+    }
+    Prog { arity, nbase, clauses, edb, dom, shape, emptied }
 }
 
 /// left-to-right binding discipline of the backward chainer (head variables bound first)
@@ -579,6 +633,12 @@ impl Sys {
         for (r, ts) in p.edb.iter().enumerate() {
             if !ts.is_empty() {
                 let q = self.run(&fact_stmt(r, ts))?;
+                check_msgs(&q)?;
+            } else if p.emptied.get(r).copied().unwrap_or(false) {
+                let d = p.dummy(r);
+                let q = self.run(&fact_stmt(r, &[d.clone()]))?;
+                check_msgs(&q)?;
+                let q = self.run(&fact_stmt(r, &[d]).replacen('+', "-", 1))?;
                 check_msgs(&q)?;
             }
         }
@@ -973,6 +1033,38 @@ pub fn corpus() -> Vec<Prog> {
             &ints,
             "r0(3, 1).\nr0(2, 3).\nr0(0, 3).\nr0(1, 0).\nr0(1, 3).\nr0(0, 2).\nr1(V0, V1) <- r0(V0, V1)\nr1(V0, V1) <- r1(V0, V2), r0(V2, V1)\nr2(V0, V0) <- r1(V0, V0), V0 <= 2",
             "recursion",
+        ),
+        // negated relation has rules AND an (emptied) stored-fact entry; r3(1) only through the last clause
+        parse_prog(
+            2,
+            &[1, 1, 1, 1],
+            &ints,
+            "r0(1).\nr0(2).\nr0(3).\nr1(1).\nr2 emptied\nr2(V0) <- r1(V0)\nr3(V0) <- r0(V0), !r2(V0)\nr3(V0) <- r1(V0)",
+            "derived_with_emptied_store",
+        ),
+        // the same with a stored fact r2(2) that the engine ignores (r2 has a non-recursive clause)
+        parse_prog(
+            2,
+            &[1, 1, 1, 1],
+            &ints,
+            "r0(1).\nr0(2).\nr0(3).\nr1(1).\nr2(2).\nr2(V0) <- r1(V0)\nr3(V0) <- r0(V0), !r2(V0)\nr3(V0) <- r1(V0)",
+            "derived_with_stored_facts",
+        ),
+        // positive use of ignored stored facts: r2(3) is stored, r2 = {1, 2} by its rule
+        parse_prog(
+            1,
+            &[2, 1, 1],
+            &ints,
+            "r0(1, 2).\nr0(2, 3).\nr1(3).\nr1(V0) <- r0(V0, V1)\nr2(V0) <- r0(V0, V1), r1(V2)",
+            "derived_with_stored_facts",
+        ),
+        // every clause self-recursive: the stored fact r1(3, 1) is the base of the closure; positive and negated use
+        parse_prog(
+            1,
+            &[2, 2, 1],
+            &ints,
+            "r0(1, 2).\nr0(2, 0).\nr1(3, 1).\nr1(V0, V1) <- r1(V0, V2), r0(V2, V1)\nr2(V1) <- r1(V0, V1), !r1(V1, V0)",
+            "derived_with_stored_facts",
         ),
         // derived relation used twice with a join
         parse_prog(
